@@ -96,7 +96,7 @@ def cfg():
 
 
 PLACES = ("guard", "invariant", "invariant-urgent", "invariant-committed", "invariant-second-template",
-          "guard-into-branchpoint", "guard-out-of-branchpoint", "guard-with-select-and-sync", "guard-as-cdata", "invariant-as-split-cdata")
+          "guard-into-branchpoint", "guard-out-of-branchpoint", "guard-with-select-and-sync", "guard-as-cdata", "invariant-as-split-cdata", "invariant-with-rate", "invariant-after-rate-label")
 
 
 def model(place, text):
@@ -124,6 +124,11 @@ def model(place, text):
                             transitions=[xmlgen.transition("id0", "id2", guard=text if into else None),
                                          xmlgen.transition("id2", "id1", guard=None if into else text, prob="1"),
                                          xmlgen.transition("id2", "id0", prob="2")])
+        return xmlgen.nta(DECL, [t], "P = T(); system P;")
+    if place in ("invariant-with-rate", "invariant-after-rate-label"):
+        # the location also has an exponential rate (both go through the builder's operand stack), in either order of the labels
+        t = xmlgen.template("T", locations=[xmlgen.location("id0", "L0", inv=text, rate="2", rate_first=place == "invariant-after-rate-label"),
+                                            xmlgen.location("id1", "L1")], init="id0", transitions=[xmlgen.transition("id0", "id1")])
         return xmlgen.nta(DECL, [t], "P = T(); system P;")
     if place == "guard-with-select-and-sync":
         return xmlgen.simple_model(decl=DECL + " broadcast chan zc[2];", select="zs : int[0,1]", sync="zc[zs]!", guard=text, assign="i = zs")
@@ -157,7 +162,7 @@ def run_shard(shard):
     places = PLACES if depth <= 3 else PLACES[:2]
     if depth == 3 and engine.tier() != "thorough":
         # quick: the depth-3 enumeration on one placement of each kind; all placements get the depth-2 sweep over the 20 atom spellings
-        places = ("guard", "invariant", "invariant-urgent", "invariant-second-template", "guard-into-branchpoint", "guard-as-cdata")
+        places = ("guard", "invariant", "invariant-urgent", "invariant-second-template", "guard-into-branchpoint", "guard-as-cdata", "invariant-with-rate")
     for place in places:
         docs = [model(place, it[0]) for it in items]
         res = xmlgen.run_docs(w, docs, want=["noinv"], batch=200)
